@@ -22,7 +22,7 @@ def wf(prop, graph, items, buf, mx, kind="func", mode="dpor", oracles=(), events
     job = {"id": jid, "prop": prop, "scen": scen, "mode": mode, "budget": kw.pop("budget", budget(tier)), "oracles": list(oracles), "events_dep": events_dep, "force_all": -1}
     job.update(kw)
     # scenarios that can also be run natively (real runtime, real bash, un-instrumented scipipe)
-    if graph not in ("tasks", "slots", "gjoin", "gjoin2") and mode == "dpor" and not job.get("crash") and not job.get("race") and not scen.get("abs_src") and not scen.get("rev_src") and scen.get("extra") in (None, "", "recorder", "recorder2", "subdir", "emptyparam-setout", "prepend") \
+    if graph not in ("tasks", "slots", "tasks2wf", "nested", "gjoin", "gjoin2") and mode == "dpor" and not job.get("crash") and not job.get("race") and not scen.get("abs_src") and not scen.get("rev_src") and scen.get("extra") in (None, "", "recorder", "recorder2", "subdir", "emptyparam-setout", "prepend") \
             and not job.get("seed_dir") and job.get("omit_edge") is None and not job.get("omit_fromstr") and not job.get("drop_proc") and not job.get("force_order") and not job.get("fault") and not job.get("external"):
         # (failing runs are not compared natively: os.Exit does not kill the task's child processes,
         # which the model's process-group kill does)
@@ -170,6 +170,10 @@ def plan_c04(tier, seed):
     for fa in (-1, 1):
         jobs.append({"id": f"C04-stream-mixed-out-ports-mo{fa}", "prop": "C04", "kind": "stream", "mode": "delay", "delay": 0, "budget": budget(tier, 20, 120), "oracles": [], "events_dep": False, "force_all": fa,
                      "args": {"n": "1", "size": "1", "max": "3", "mixed": "1", "logcons": "1", "only_classes": "ordinary-output-not-delivered,hang,unexpected-outcome"}})
+    # bundled components that feed SEVERAL out-ports of one consumer (combinators): every tuple is delivered, streams longer than the buffers
+    for comp_name, lens in (("filecombinator", "2,2"), ("filecombinator", "1,3"), ("paramcombinator", "2,2")):
+        jobs.append(with_delay_fallback({"id": f"C04-{comp_name}-l{lens.replace(',', '')}-one-consumer", "prop": "C04", "kind": "comp", "mode": "dpor", "budget": budget(tier, 30, 300), "oracles": [], "events_dep": False, "force_all": -1,
+                                         "args": {"comp": comp_name, "lens": lens, "buf": "1", "zip": "1"}}, 1))
     return {"level": "model_checking", "native": True, "race_too": True, "rev_map_order": ("C04-g6b-i2-b1-m2", "C04-g8g-i2", "C04-g7c-i2-b1-m1", "C04-g8-i2", "C04-g9-"), "stages": [lambda ctx, prev: jobs, maporder_stage("C04", o, tier)],
             "rule": "every Mazurkiewicz trace (DPOR + sleep sets) of each scenario x configuration; delay bound 2 where the search does not close; MAPORDER pass: each map-range site forced to every other order on the default schedule with <= 1 delay; memory-level pass: some scenarios again on the race-instrumented build, where map operations and accesses to mutable struct fields are scheduling points too",
             "assumptions": BASE_ASSUMPTIONS + ["multi-in-port processes receive equally long streams; at most one process without out-ports"]}
@@ -233,6 +237,7 @@ def plan_c05(tier, seed):
         add("g11", 1, 1, 1); add("g11", 2, 1, 2)
         add("g4", 1, 1, 1); add("g5", 1, 1, 1); add("g7", 1, 1, 1); add("g8", 1, 1, 1); add("g9", 1, 1, 2); add("g8g", 2, 1, 1); add("g8g", 3, 1, 2)
         add("g12", 3, 1, 1)
+        add("g8k", 2, 1, 2); add("g8k", 3, 1, 1)  # the ONLY dead end is a parameter out-port and a process without out-ports is the driver
         add("g10b", 1, 1, 2); add("g10b", 3, 1, 1); add("g7c", 2, 1, 2); add("g10b", 6, 1, 2, mode="delay", delay=1, id="C05-g10b-i6-b1-m2-delay1")  # stream well beyond the buffers: the sink must run concurrently with the driver
         # slot configurations: multi-core tasks competing for the slots (partial acquisition)
         add("g2", 2, 1, 2, cores=[2]); add("g13", 1, 1, 2, cores=[2, 2]); add("g13", 1, 1, 3, cores=[2, 2]); add("g3", 2, 1, 2, cores=[2, 1])
@@ -261,7 +266,7 @@ def plan_c05(tier, seed):
     jobs.append(with_delay_fallback(wf("C05", "g2", 1, 1, 1, "cmd", oracles=["nohang", "c05"], events_dep=True, tier=tier, extra="absout", xdev="abs", id="C05-g2-absout-other-device")))
     jobs.append(with_delay_fallback(wf("C05", "g3", 1, 1, 2, "cmd", oracles=["nohang", "c05"], events_dep=True, tier=tier, extra="absout", xdev="abs", id="C05-g3-absout-other-device")))
     # bundled components with sender goroutines of their own, streams longer than the buffers (deadlock freedom / return)
-    for comp_name, lens, zp in (("paramcombinator", "2,2", "1"), ("paramcombinator", "3,1", "1"), ("paramcombinator", "2,2", "0"), ("filecombinator", "2,2", "0")):
+    for comp_name, lens, zp in (("paramcombinator", "2,2", "1"), ("paramcombinator", "3,1", "1"), ("paramcombinator", "2,2", "0"), ("filecombinator", "2,2", "0"), ("filecombinator", "2,2", "1")):
         jobs.append(with_delay_fallback({"id": f"C05-{comp_name}-l{lens.replace(',', '')}-beyond-buffer" + ("-one-consumer" if zp == "1" else ""), "prop": "C05", "kind": "comp", "mode": "dpor", "budget": budget(tier, 30, 300), "oracles": [], "events_dep": False, "force_all": -1,
                                          "args": {"comp": comp_name, "lens": lens, "buf": "1", "zip": zp}}, 1))
     jobs.extend(mem_jobs("C05", o, tier, [("g5", 1, 2), ("g10b", 1, 2)] if tier == "quick" else [("g5", 1, 2), ("g10b", 1, 2), ("g4", 1, 2), ("g11", 2, 2), ("g9", 1, 2)], events_dep=True))
@@ -374,6 +379,13 @@ def plan_c07(tier, seed):
                         jobs.append(with_delay_fallback(wf("C07", drv, 1, 1, mx, oracles=o, tier=tier, cores=cores, extra="barrier", events_dep=False, id=f"C07-{drv}-barrier-m{mx}-c{cs}")))
     jobs.append(with_delay_fallback(wf("C07", "tasks", 1, 1, 4, oracles=o, tier=tier, cores=[2, 2], extra="barrier", events_dep=False, id="C07-tasks-barrier-m4-c22")))
     jobs.append(with_delay_fallback(wf("C07", "tasks", 1, 1, 4, oracles=o, tier=tier, cores=[2, 1, 1], extra="barrier", events_dep=False, id="C07-tasks-barrier-m4-c211")))
+    # TWO workflows in one program, each with its own slots: a task of workflow A waiting for a slot must not keep
+    # workflow B from using its free slots (first task of A and the task of B rendezvous); a task whose body runs an
+    # inner workflow
+    for mx, cores in ((1, [1, 1, 1]), (2, [2, 1, 1]), (2, [1, 1, 1, 2])):
+        jobs.append(with_delay_fallback(wf("C07", "tasks2wf", 1, 1, mx, oracles=o, tier=tier, cores=cores, events_dep=False, id=f"C07-two-workflows-m{mx}-c{''.join(map(str, cores))}")))
+    for mx, cores in ((1, [1, 1]), (2, [1, 2, 1])):
+        jobs.append(with_delay_fallback(wf("C07", "nested", 1, 1, mx, oracles=o, tier=tier, cores=cores, events_dep=False, id=f"C07-nested-workflow-m{mx}-c{''.join(map(str, cores))}")))
     for mx in (2, 3):
         for cores in multisets(mx, 2):
             cs = "".join(map(str, cores))
@@ -969,7 +981,7 @@ def plan_c02(tier, seed):
     o = ["nohang", "clean", "c02", "c04"]
     def stage1(ctx, prev):
         jobs = []
-        combos = [("g2", 2, 2, "cmd"), ("g3", 1, 1, "cmd"), ("g3", 2, 1, "func"), ("g7", 1, 2, "cmd"), ("g8", 1, 1, "cmd"), ("g6b", 2, 1, "func"), ("g3", 1, 1, "cmd", "absout"), ("g2", 1, 1, "cmd", "subdir"), ("g7b", 1, 2, "cmd"), ("g8d", 1, 1, "cmd"), ("g3", 1, 1, "cmd", "setout-only"), ("g3", 1, 1, "cmd", "dirout")]
+        combos = [("g2", 2, 2, "cmd"), ("g3", 1, 1, "cmd"), ("g3", 2, 1, "func"), ("g7", 1, 2, "cmd"), ("g8", 1, 1, "cmd"), ("g6b", 2, 1, "func"), ("g3", 1, 1, "cmd", "absout"), ("g2", 1, 1, "cmd", "subdir"), ("g7b", 1, 2, "cmd"), ("g8d", 1, 1, "cmd"), ("g3", 1, 1, "cmd", "setout-only"), ("g3", 1, 1, "cmd", "dirout"), ("g14f", 1, 1, "cmd", "defaultout-e"), ("g14a", 1, 1, "func")]
         if tier != "quick":
             combos += [("g3", 2, 2, "cmd"), ("g6", 1, 2, "cmd"), ("g7", 2, 2, "func"), ("g4", 1, 2, "cmd"), ("g8", 2, 2, "func")]
         # multi-core tasks: a skipped task takes no slot (or gives back all it took)
@@ -997,7 +1009,9 @@ def plan_c02(tier, seed):
             if not j.get("_list"):
                 continue
             units = (r.get("extra_info") or {}).get("task_outputs") or []
-            for idx, sub in enumerate(powerset(list(range(len(units))))):
+            # g14f: the name of e's output is a function of the tags in d's audit record - a hand-made history (stub
+            # records without tags) is not a history of this workflow; only the real one (full run, run again) is used
+            for idx, sub in enumerate(powerset(list(range(len(units)))) if j["scen"]["graph"] != "g14f" else []):
                 if not sub:
                     continue
                 if tier == "quick" and len(units) > 3 and len(sub) not in (1, len(units)) and idx % 2:
